@@ -382,3 +382,17 @@ def param_mutations(f: Func) -> list[tuple[ast.AST, str]]:
                 if isinstance(n.op, ast.Add) and isinstance(n.value, (ast.List, ast.ListComp)):
                     out.append((n, f"{norm(n)[:60]} extends the caller's `{alias.get(t.id, t.id)}` in place"))
     return out
+
+
+def scheme_builder_call(ctx: Ctx):
+    """(CodeGenerator.scheme, the value of the call `f(ode, dt, ...)` it makes to the scheme builder) read from what
+    the method computes - the call may sit in a private helper.  (func, None) when it is not found."""
+    from sa import av
+
+    from . import util
+
+    cg = ctx.sm.func("codegen/base.py", "CodeGenerator.scheme")
+    v = util.value_of(ctx, cg)
+    fparam = cg.params[1]
+    calls = [c for c in av.find_all(v, "call") if c[1] == fparam] + [c for c in av.find_all(v, "vcall") if c[1] == ("sym", fparam)]
+    return cg, (calls[0] if calls else None), v
